@@ -2673,7 +2673,7 @@ SDIfreevarAID(NC   *handle, /* IN: file handle */
         HGOTO_ERROR(DFE_ARGS, FAIL);
     }
 
-    if (index < 0 || index > handle->vars->count) {
+    if (index < 0 || (unsigned)index >= handle->vars->count) {
         HGOTO_ERROR(DFE_ARGS, FAIL);
     }
 
@@ -2681,8 +2681,11 @@ SDIfreevarAID(NC   *handle, /* IN: file handle */
     ap += index;
 
     var = (NC_var *)*ap;
+    if (var == NULL) {
+        HGOTO_ERROR(DFE_ARGS, FAIL);
+    }
 
-    if (var && var->aid != 0 && var->aid != FAIL) {
+    if (var->aid != 0 && var->aid != FAIL) {
         if (Hendaccess(var->aid) == FAIL) {
             HGOTO_ERROR(DFE_ARGS, FAIL);
         }
